@@ -1062,6 +1062,14 @@ def make_cfgs(ctx):
             for mix in MIXES:
                 cfgs.append(make_cfg(ctx.seed, idx, lab, mix, ctx.tier))
                 idx += 1
+    # in every run: nearly saturated unknown-scale fits (as many coefficients as observations, hardly any smoothing), where
+    # n - edof lies between 0 and 2 — the Student-t quantile has exactly that many degrees of freedom, however few
+    for lab, n_, ns_, lam_ in (('LinearGAM', 8, 10, 1e-4), ('LinearGAM', 9, 12, 3e-5), ('ExpectileGAM.5', 10, 10, 1e-5), ('GammaGAM', 8, 10, 1e-4),
+                               ('LinearGAM', 10, 10, 1e-4)):
+        c = make_cfg(ctx.seed, idx, lab, 's0', ctx.tier)
+        c.update(n=n_, ns=ns_, lam=lam_, fit_intercept=True, nearly_saturated=True)
+        cfgs.append(c)
+        idx += 1
     return cfgs
 
 
